@@ -1,4 +1,5 @@
 -- Root of the library: every property module (each imports its model and generated tables).
+import BV.Props.C01
 import BV.Props.C02
 import BV.Props.C03
 import BV.Props.C04
